@@ -28,6 +28,7 @@ import re
 import urllib.parse
 
 import ZConfig
+import ZConfig.loader
 
 from zcsim import ops
 from zcsim.world import SimWorld
@@ -75,12 +76,20 @@ SCHEMA = """<schema>
   <multikey name="k" datatype="string"/>
   <key name="zzov" datatype="string"/>
   <multisection type="st" name="*" attribute="s"/>
+  <sectiontype name="nst">
+    <key name="go" datatype="zcsim.simdt.nested"/>
+  </sectiontype>
+  <multisection type="nst" name="*" attribute="n"/>
 </schema>
 """
 SCHEMA_URL = "file:///sim/schema/c05.xml"
 
 NAMES = ["a", "b", "ab"]
-SPELL = {"a": ["a", "A"], "b": ["B", "b"], "ab": ["aB", "AB", "ab", "Ab"]}
+SPELL = {"a": ["a", "A"], "b": ["B", "b"], "ab": ["aB", "AB", "ab", "Ab"],
+         # sampled histories only: names that an ILLEGAL spelling folds to
+         # (U+212A KELVIN SIGN lower-cases to 'k')
+         "k": ["k", "K"], "ak": ["ak", "AK", "aK"]}
+KELVIN = {"k": ["\u212a"], "ak": ["a\u212a", "A\u212a"]}
 # unusual names; the model decides which are legal (NBSP is left out: the
 # parser splits the directive argument on any Unicode white space)
 BAD_NAMES = ["1a", "a-b", "a.b", "é", "$a", "${B}", "$$a", "a$b", "aé", "b²",
@@ -217,6 +226,10 @@ def model_walk(steps, defines, env, out, cur, stop_at_include=None,
                 raise ModelFail("transport")
             model_walk(st["steps"], defines, env, out, cur, stop_at_include,
                        counter)
+        elif op == "nested":
+            # another load runs while this one is inside its text; it has a
+            # namespace of its own and leaves this one alone
+            pass
         else:
             raise ValueError(op)
 
@@ -254,6 +267,8 @@ def render(steps, url, store, k=None):
                          "%%define%s%s" % (sep, st["name"]))
         elif op == "use":
             lines.append("k " + use_text(st))
+        elif op == "nested":
+            lines.extend(["<nst>", "  go 1", "</nst>"])
         elif op == "section":
             lines.append("<st>")
             lines.extend(render(st["steps"], url, store))
@@ -482,7 +497,36 @@ def generate(rng, tier, index):
                 sk.append({"op": "define", "name": spell(rng, b),
                            "value": rng.choice(["x", "y", "x ", " y"])})
             steps = sk + steps[:2]
+        elif rng.random() < 0.05:
+            # scripted skeleton: a legal name, then the same name in an
+            # ILLEGAL spelling that case folding maps onto it, with the same
+            # value (mostly) - refused for the spelling, whatever is bound
+            n = rng.choice(["k", "ak"])
+            v = rng.choice(["x", "", "v 1", "$$", "$" + spell(rng, "a")])
+            sk = [{"op": "define", "name": spell(rng, n), "value": v},
+                  {"op": "define", "name": rng.choice(KELVIN[n]),
+                   "value": v if rng.random() < 0.8 else "y"}]
+            if rng.random() < 0.5:
+                sk.insert(1, {"op": "use", "name": spell(rng, n),
+                              "style": "$%s"})
+            if "$" in v and v != "$$":
+                sk.insert(0, {"op": "define", "name": "a", "value": "x"})
+            steps = steps[:1] + sk + steps[1:3]
     steps = structure(rng, steps)
+    nested = False
+    if origin == "sampled" and rng.random() < 0.08:
+        # a datatype of the application starts ANOTHER load (the unrelated
+        # text of this plan, which binds the same names to other values)
+        # while this one is between two of its lines: each load has its own
+        # namespace, also on one ConfigLoader
+        refs = [s_["ref"] for s_ in _walk_nodes(steps)
+                if s_["op"] == "include"]
+        homes = [steps] + [s_["steps"] for s_ in steps
+                           if s_["op"] == "include"
+                           and refs.count(s_["ref"]) == 1]
+        home = rng.choice(homes)
+        home.insert(rng.randint(0, len(home)), {"op": "nested"})
+        nested = True
     plan = {"prop": ID, "origin": origin, "steps": steps,
             "top": rng.choice(TOPS), "other": other_history(rng),
             "env": dict({ENV_SET: "envval",
@@ -498,14 +542,14 @@ def generate(rng, tier, index):
             "entry": rng.choice(["url", "url", "file", "override"])}
     top_incs = [s_ for s_ in steps if s_["op"] == "include"
                 and not s_.get("via")]
-    if top_incs and rng.random() < 0.5:
+    if top_incs and rng.random() < 0.5 and not nested:
         # the unrelated load keeps ITS definitions in a fragment that has the
         # URL of one of this history's fragments (the file was rewritten
         # between the loads): what a load reads is what is stored now
         plan["other"] = [{"op": "include", "ref": top_incs[0]["ref"],
                           "steps": plan["other"]}]
     incs = includes_of(steps)
-    if incs and rng.random() < 0.25:
+    if incs and rng.random() < 0.25 and not nested:
         j = rng.randint(1, len(incs))
         seam, kind = rng.choice([
             ("open", "open-enoent"), ("open", "open-http-404"),
@@ -638,16 +682,37 @@ def execute(plan):
         schema = so["schema"]
         loader = None
         if plan.get("reuse_loader"):
-            import ZConfig.loader
             loader = ZConfig.loader.ConfigLoader(schema)
             probe("one-loader-for-all-loads")
         pred = model_predict(steps, env)
         pred_other = model_predict(plan["other"], env)
+        nested_out = []
+        if any(s_["op"] == "nested" for s_ in _walk_nodes(steps)):
+            probe("load-started-inside-a-load")
+            merged = dict(other_store)
+            merged.update(store)
+            store = merged
+
+            def hook(_value):
+                try:
+                    cfg = load(schema, other_top, loader, "url")
+                    o_ = {"ok": True, "values": observe(cfg)}
+                except ZConfig.ConfigurationError as e:
+                    o_ = ops.failure(e)
+                    o_["is_syntax"] = isinstance(
+                        e, ZConfig.ConfigurationSyntaxError)
+                    o_["is_replacement"] = isinstance(
+                        e, ZConfig.SubstitutionReplacementError)
+                except Exception as e:
+                    o_ = ops.failure(e)
+                nested_out.append(o_)
+            w.nested_hook = hook
         sequence = [("load-1", store, top, pred),
                     ("load-2", store, top, pred),
                     ("other", other_store, other_top, pred_other),
                     ("load-3", store, top, pred)]
         for which, st, url, p in sequence:
+            del nested_out[:]
             faults = ()
             this_pred = p
             if which == "load-1" and fault:
@@ -668,6 +733,11 @@ def execute(plan):
                 this_pred = p
             for clause, detail in compare(this_pred, o):
                 violation(clause, detail, which)
+            for o_ in nested_out:
+                out["evaluations"] += 1
+                for clause, detail in compare(pred_other, o_):
+                    violation(clause, "the load started inside this one: "
+                              + detail, which + "-nested")
             out["log"].append("%s: model %s ; real %s" % (
                 which, "accepts" if this_pred["ok"] else
                 "rejects(%s)" % this_pred["kind"],
